@@ -7,4 +7,4 @@ go build ./...
 out=$(go test -vet=off -count=1 ./... 2>&1) || { echo "$out" | grep -E -- "--- FAIL|Error:|FAIL" | head -20; echo "SUITE FAILED - not committed"; exit 1; }
 echo "$out" | grep -q "^ok" || { echo "no ok line"; exit 1; }
 git commit -qa -F "$1"
-git log --oneline | head -1
+git log -1 --oneline
